@@ -29,6 +29,12 @@ type RenderContext struct {
 	inParentCall       bool       // Flag to indicate if we're currently rendering a parent() call
 	sandboxed          bool       // Flag indicating if this context is sandboxed
 	lastLoadedTemplate *Template  // The template that created this context (for resolving relative paths)
+
+	// blockChain holds, per block name, every definition along the extends chain, most-derived first
+	blockChain map[string][]*BlockNode
+	// currentDefs / blockDepth: the definitions of the block being rendered and which of them is running
+	currentDefs []*BlockNode
+	blockDepth  int
 }
 
 // contextMapPool is a pool for the maps used in RenderContext
@@ -114,6 +120,9 @@ func NewRenderContext(env *Environment, context map[string]interface{}, engine *
 	ctx.inParentCall = false
 	ctx.sandboxed = false
 	ctx.lastLoadedTemplate = nil
+	ctx.blockChain = nil
+	ctx.currentDefs = nil
+	ctx.blockDepth = 0
 
 	// Copy the context values directly
 	if context != nil {
@@ -146,6 +155,8 @@ func (ctx *RenderContext) Release() {
 
 	// Don't release parent contexts - they'll be released separately
 	ctx.parent = nil
+	ctx.blockChain = nil
+	ctx.currentDefs = nil
 
 	// Return to pool
 	renderContextPool.Put(ctx)
@@ -343,6 +354,11 @@ func (ctx *RenderContext) Clone() *RenderContext {
 
 	// Inherit sandbox state
 	newCtx.sandboxed = ctx.sandboxed
+
+	// Block definitions are not shared with derived contexts
+	newCtx.blockChain = nil
+	newCtx.currentDefs = nil
+	newCtx.blockDepth = 0
 
 	// Copy the lastLoadedTemplate reference (crucial for relative path resolution)
 	newCtx.lastLoadedTemplate = ctx.lastLoadedTemplate
